@@ -108,6 +108,9 @@ enum Op {
         split: Option<usize>,
     },
     Remove { tpe: usize, id: usize },
+    /// environment (directory backend): something that is not a regular file occupies the name
+    /// of the temporary file of (type, id) - the next write of that id cannot create it
+    BlockTmp { tpe: usize, id: usize },
 }
 
 #[derive(Clone, Debug, Serialize, Deserialize, PartialEq, Eq, Hash)]
@@ -155,6 +158,19 @@ fn apply_model(m: &mut Store, op: &Op) -> bool {
             true
         }
         Op::Remove { tpe, id } => m.del(TYPES[*tpe], &i[*id]),
+        Op::BlockTmp { .. } => true,
+    }
+}
+
+/// path of (type, id) in the directory backend's layout
+fn local_path(dir: &Path, tpe: FileType, id: &Id) -> PathBuf {
+    let hex = id.to_hex();
+    match tpe {
+        FileType::Config => dir.join("config"),
+        FileType::Pack => dir.join("data").join(&hex.as_str()[..2]).join(hex.as_str()),
+        FileType::Key => dir.join("keys").join(hex.as_str()),
+        FileType::Snapshot => dir.join("snapshots").join(hex.as_str()),
+        FileType::Index => dir.join("index").join(hex.as_str()),
     }
 }
 
@@ -166,6 +182,7 @@ fn apply_real(be: &Arc<dyn WriteBackend>, op: &Op) -> Result<(), String> {
             be.write_bytes(TYPES[*tpe], &i[*id], false, parts(&content(*c), pattern)).map_err(|e| e.display_log())
         }
         Op::Remove { tpe, id } => be.remove(TYPES[*tpe], &i[*id], false).map_err(|e| e.display_log()),
+        Op::BlockTmp { .. } => Ok(()),
     }
 }
 
@@ -283,6 +300,7 @@ fn run_case_inner(c: &Case, sb: &Path, rep: &mut Report, observe_every_step: boo
         plant_strays(&dir, &c.strays);
     }
     let mut m = Store::default();
+    let mut blocked: std::collections::BTreeSet<(usize, usize)> = std::collections::BTreeSet::new();
     let crash_dir = sb.join("crash");
     for (n, op) in c.history.iter().enumerate() {
         let before = m.clone();
@@ -297,10 +315,23 @@ fn run_case_inner(c: &Case, sb: &Path, rep: &mut Report, observe_every_step: boo
                 im.lock().unwrap().push(dst.clone());
             })));
         }
+        if let Op::BlockTmp { tpe, id } = op {
+            let f = local_path(&dir, TYPES[*tpe], &ids()[*id]);
+            let mut name = f.file_name().unwrap().to_os_string();
+            name.push("-tmp-");
+            let tmp = f.with_file_name(name);
+            _ = fs::create_dir_all(tmp.join("occupied"));
+            _ = blocked.insert((*tpe, *id));
+        }
         let real = apply_real(&be, op);
         rustic_backend::verif::set_pre_publish(None);
         rep.inc("transitions");
         match (&real, model_ok) {
+            // a write whose temporary file cannot be created may fail - and then changes nothing
+            (Err(_), true) if matches!(op, Op::Write { tpe, id, .. } if blocked.contains(&(*tpe, *id))) => {
+                rep.inc("blocked_write_errors");
+                m = before.clone();
+            }
             (Ok(()), true) => {}
             (Err(_), false) => {}
             // removing an absent file: the statement does not say whether this is an error
@@ -480,6 +511,32 @@ fn run(args: &Args, rep: &mut Report, sb: &Path) {
                         if !rep.has_violation(&sig) {
                             rep.violation(sig, msg, serde_json::to_value(&case).unwrap());
                         }
+                    }
+                }
+            }
+        }
+    }
+    // a write that fails because its temporary file cannot be created: every type x {absent,
+    // present} target x what follows; the published file and the listing stay as they were
+    if args.shard == 1 % args.nshards {
+        for t in 0..TYPES.len() {
+            let id = 0usize;
+            for first in [false, true] {
+                let mut history = Vec::new();
+                if first {
+                    history.push(Op::Write { tpe: t, id, content: 1, split: None });
+                }
+                history.push(Op::BlockTmp { tpe: t, id });
+                history.push(Op::Write { tpe: t, id, content: 2, split: Some(1) });
+                history.push(Op::Write { tpe: t, id: if TYPES[t] == FileType::Config { 0 } else { 1 }, content: 1, split: None });
+                history.push(Op::Remove { tpe: t, id });
+                let case = Case { kind: Kind::Local, strays: vec![], history };
+                rep.inc("executions");
+                rep.inc("blocked_tmp_cases");
+                if let Err((sig, msg)) = run_case(&case, sb, rep, true) {
+                    let sig = format!("{sig}[failed-write]");
+                    if !rep.has_violation(&sig) {
+                        rep.violation(sig, msg, serde_json::to_value(&case).unwrap());
                     }
                 }
             }
